@@ -117,6 +117,30 @@ func VerifC01Events() {
 	zz.Reach("end")
 }
 
+// VerifC01MultiAdd: multi-message Add calls whose messages may include an end-of-track at any position
+// (what follows an end-of-track is ignored, like every Add on a closed track), followed by a further Add.
+func VerifC01MultiAdd() {
+	s := genSMF(1)
+	var tr Track
+	n := 1 + zz.Choice("n", zz.Param("N"))
+	var msgs [][]byte
+	for i := 0; i < n; i++ {
+		ks := "m" + string(rune('0'+i))
+		if zz.Choice("eot"+ks, 2) == 1 {
+			msgs = append(msgs, EOT)
+		} else {
+			msgs = append(msgs, []byte{0x90, zz.U8("key"+ks) & 0x7F, 64})
+		}
+	}
+	tr.Add(uint32(zz.U8("delta")), msgs...)
+	if zz.Choice("again", 2) == 1 {
+		tr.Add(uint32(zz.U8("delta2")), []byte{0x80, zz.U8("keyz") & 0x7F, 0})
+	}
+	s.Add(tr)
+	c01roundtrip(s, "multiadd")
+	zz.Reach("end")
+}
+
 // VerifC01Tracks: T tracks x K events (per-track reset of chunk buffer and running status).
 func VerifC01Tracks() {
 	s := genSMF(zz.Param("nctor"))
